@@ -299,6 +299,9 @@ def run(ctx, res):
     check_legendre(res, facts)
     check_delegate(res, facts)
     check_inplace(res, facts)
+    # legendre() of a cubic extension goes through norm(): its shortcut arms are decided under C02's R-NORM.cubic, repeated here
+    from rules import c02
+    c02.check_cubic_norm(res, facts)
     return {
         "level": "other",
         "explanation": "Control-dependence and dataflow rules over the MIR of the square-root and Legendre-symbol code in ark-ff: every computed root is returned only under root^2 == input, zero has the explicit arm, the Legendre classification is enumerated over its three outcomes, extension fields go through the norm, and the c1 = 0 arm of the quadratic-extension root places sqrt(c0) / sqrt(c0/beta) in the right coordinate. Completeness (a root is reported whenever one exists) is a property of the Tonelli-Shanks loop on run-time values and is NOT decided; the precomputed constants are decided under C16.",
